@@ -415,6 +415,9 @@ def run(ctx):
         # the caller's context may carry a deadline: the rate bound holds up to the moment it passes
         dsc = with_deadline(ctx.rng, gen_scripts(ctx.rng, 3000 if ctx.thorough() else 400) + [worst_burst(o, c, 100) for o in (1, 2, 3) for c in (0, 1, 2)])
         judge_direct(ctx, dsc, binp, both)
+        # the bound is stated for all intervals: the same scripts with a microsecond as the time unit (interval 10 us …)
+        usc = [s.replace(" | ", " unit=us | ", 1) for s in gen_scripts(ctx.rng, 1500 if ctx.thorough() else 200)]
+        judge_direct(ctx, usc, binp, both, label="time unit of the script = 1 microsecond (intervals below a millisecond), direct oracle only")
         # calls are independent: the same scripts in a process where another Throttling was cancelled in mid-interval
         # and a third one is busy on its own context (go/harness/lockstep/throttle_test.go, mode=hist)
         hsc = [s.replace(" | ", " mode=hist | ", 1) for s in gen_scripts(ctx.rng, 1500 if ctx.thorough() else 250)]
